@@ -823,3 +823,55 @@ package server
 //@ ensures[C19] service_and_target_from_the_shared_context: emitted(AttrStr("service", loggingRequestContext.Service)) && emitted(AttrStr("target", loggingRequestContext.Target))
 //@ ensures[C19] context_shared_with_the_chain_before_it_runs: all(Forward, ctxtyp(as($2, `*net/http.Request`), LOGKEY) == typeid(*loggingRequestContext) && ctxval(as($2, `*net/http.Request`), LOGKEY) == ref(loggingRequestContext$ptr) && $1 == ref(writer))
 //@ ensures[C19] scheme_follows_the_connection: (r.TLS != nil ==> emitted(AttrStr("scheme", "https")) && emitted(AttrInt("port", old(h.httpsPort)))) && (r.TLS == nil ==> emitted(AttrStr("scheme", "http")) && emitted(AttrInt("port", old(h.httpPort))))
+
+//@ func (*server.Target).forwardHeaders
+//@ requires req != nil && req.In != nil && req.Out != nil && req.In.Header != nil && req.Out.Header != nil && req.In != req.Out && ref(req.In.Header) != ref(req.Out.Header)
+//@ assigns mapof(req.Out.Header)
+//@ may_emit SetXForwarded, SetHeader
+//@ ensures[C13] client_values_discarded_by_default: !t.options.ForwardHeaders ==> all(SetXForwarded, $1 == ref(old(req.Out.Header["X-Forwarded-For"])) && $2 == old(haskey(req.Out.Header, "X-Forwarded-For"))) && hdrGet(req.Out.Header, "X-Forwarded-Proto") == connProto(ref(req.In)) && hdrGet(req.Out.Header, "X-Forwarded-Host") == req.In.Host && none(SetHeader)
+//@ ensures[C13] client_chain_kept_when_enabled: t.options.ForwardHeaders ==> all(SetXForwarded, $1 == ite(haskey(req.In.Header, "X-Forwarded-For"), ref(req.In.Header["X-Forwarded-For"]), nil))
+//@ ensures[C13] client_proto_and_host_kept_when_enabled: t.options.ForwardHeaders ==> (hdrGet(req.In.Header, "X-Forwarded-Proto") != "" ==> hdrGet(req.Out.Header, "X-Forwarded-Proto") == hdrGet(req.In.Header, "X-Forwarded-Proto")) && (hdrGet(req.In.Header, "X-Forwarded-Proto") == "" ==> hdrGet(req.Out.Header, "X-Forwarded-Proto") == connProto(ref(req.In))) && (hdrGet(req.In.Header, "X-Forwarded-Host") != "" ==> hdrGet(req.Out.Header, "X-Forwarded-Host") == hdrGet(req.In.Header, "X-Forwarded-Host")) && (hdrGet(req.In.Header, "X-Forwarded-Host") == "" ==> hdrGet(req.Out.Header, "X-Forwarded-Host") == req.In.Host)
+//@ ensures[C13] exactly_once: count(SetXForwarded(_, _, _)) == 1
+//@ ensures[C13] other_headers_untouched: forall k string :: k != "X-Forwarded-For" && k != "X-Forwarded-Proto" && k != "X-Forwarded-Host" ==> haskey(req.Out.Header, k) == old(haskey(req.Out.Header, k)) && req.Out.Header[k] == old(req.Out.Header[k])
+
+//@ func server.RoutingContext
+//@ requires r != nil
+//@ assigns nothing
+//@ ensures[C13] from_request_context: (ctxtyp(r, ROUTEKEY) == typeid(*routingContext) ==> ref(result) == ctxval(r, ROUTEKEY)) && (ctxtyp(r, ROUTEKEY) != typeid(*routingContext) ==> result == nil)
+
+//@ func (*server.Target).rewrite
+//@ requires req != nil && req.In != nil && req.Out != nil && req.In != req.Out && req.In.URL != nil && req.Out.URL != nil && req.In.URL != req.Out.URL && req.In.Header != nil && req.Out.Header != nil && ref(req.In.Header) != ref(req.Out.Header) && t.targetURL != nil && t.targetURL.Path == "" && ctxWF(req.In) && t.targetURL != req.Out.URL && t.targetURL != req.In.URL
+//@ assigns mapof(req.Out.Header), req.Out.Host, req.Out.URL.Scheme, req.Out.URL.Host, req.Out.URL.Path, req.Out.URL.RawPath, req.Out.URL.RawQuery
+//@ may_emit SetXForwarded, SetHeader, SetURL
+//@ ensures[C13] original_host_kept: req.Out.Host == req.In.Host
+//@ ensures[C13] query_byte_identical: req.Out.URL.RawQuery == req.In.URL.RawQuery
+//@ ensures[C13] sent_to_this_target: req.Out.URL.Host == t.targetURL.Host && req.Out.URL.Scheme == t.targetURL.Scheme
+//@ ensures[C13] path_untouched_without_stripping: ctxtyp(req.In, ROUTEKEY) != typeid(*routingContext) ==> req.Out.URL.Path == req.In.URL.Path && req.Out.URL.RawPath == req.In.URL.RawPath
+//@ ensures[C13] matched_prefix_stripped: ctxtyp(req.In, ROUTEKEY) == typeid(*routingContext) ==> req.Out.URL.Path == strings.TrimPrefix(req.In.URL.Path, as(ctxval(req.In, ROUTEKEY), `*routingContext`).MatchedPrefix)
+//@ ensures[C13] encoded_form_stripped_alike: ctxtyp(req.In, ROUTEKEY) == typeid(*routingContext) && req.In.URL.RawPath != "" && strings.HasPrefix(req.In.URL.RawPath, as(ctxval(req.In, ROUTEKEY), `*routingContext`).MatchedPrefix) && strings.HasPrefix(req.In.URL.Path, as(ctxval(req.In, ROUTEKEY), `*routingContext`).MatchedPrefix) ==> req.Out.URL.RawPath == strings.TrimPrefix(req.In.URL.RawPath, as(ctxval(req.In, ROUTEKEY), `*routingContext`).MatchedPrefix)
+//@ ensures[C13] inbound_request_untouched: req.In.URL.Path == old(req.In.URL.Path) && req.In.URL.RawQuery == old(req.In.URL.RawQuery) && req.In.Host == old(req.In.Host)
+
+//@ func (*server.RequestIDMiddleware).ServeHTTP
+//@ requires r != nil && r.Header != nil && !isnil(w) && !isnil(h.next)
+//@ attr blocks
+//@ assigns *
+//@ may_emit *
+//@ ensures[C13] forwards_the_same_request_once: count(Forward(_, _, _)) == 1 && emitted(Forward(old(h.next), w, r))
+//@ ensures[C13] client_request_id_kept: old(hdrGet(r.Header, "X-Request-ID")) != "" ==> none(SetHeader)
+//@ ensures[C13] fresh_id_otherwise: old(hdrGet(r.Header, "X-Request-ID")) == "" ==> count(SetHeader(_, _, _)) == 1 && all(SetHeader, $0 == ref(old(r.Header)) && $1 == "X-Request-Id" && $2 != "") && first(SetHeader(_, _, _), Forward(_, _, _))
+
+//@ func (*server.RequestStartMiddleware).ServeHTTP
+//@ requires r != nil && r.Header != nil && !isnil(w) && !isnil(h.next)
+//@ attr blocks
+//@ assigns *
+//@ may_emit *
+//@ ensures[C13] forwards_the_same_request_once: count(Forward(_, _, _)) == 1 && emitted(Forward(old(h.next), w, r))
+//@ ensures[C13] client_start_time_kept: old(hdrGet(r.Header, "X-Request-Start")) != "" ==> none(SetHeader)
+//@ ensures[C13] stamped_otherwise: old(hdrGet(r.Header, "X-Request-Start")) == "" ==> count(SetHeader(_, _, _)) == 1 && all(SetHeader, $0 == ref(old(r.Header)) && $1 == "X-Request-Start" && $2 != "") && first(SetHeader(_, _, _), Forward(_, _, _))
+
+//@ func (*server.Server).buildHandler
+//@ requires s.config != nil && s.router != nil
+//@ assigns nothing
+//@ may_emit ParseTemplates
+//@ ensures[C13,C19] chain_order: typeis(result, `*RequestStartMiddleware`) && typeis(as(payload(result), `*RequestStartMiddleware`).next, `*RequestIDMiddleware`) && typeis(as(payload(as(payload(result), `*RequestStartMiddleware`).next), `*RequestIDMiddleware`).next, `*LoggingMiddleware`) && (typeis(as(payload(as(payload(as(payload(result), `*RequestStartMiddleware`).next), `*RequestIDMiddleware`).next), `*LoggingMiddleware`).next, `*ErrorPageMiddleware`) || isnil(as(payload(as(payload(as(payload(result), `*RequestStartMiddleware`).next), `*RequestIDMiddleware`).next), `*LoggingMiddleware`).next))
+//@ ensures[C19] logging_ports: as(payload(as(payload(as(payload(result), `*RequestStartMiddleware`).next), `*RequestIDMiddleware`).next), `*LoggingMiddleware`).httpPort == s.config.HttpPort && as(payload(as(payload(as(payload(result), `*RequestStartMiddleware`).next), `*RequestIDMiddleware`).next), `*LoggingMiddleware`).httpsPort == s.config.HttpsPort
